@@ -357,39 +357,47 @@ def check_malformed(ctx, value, which="public"):
 
 
 # ----------------------------------------------------------------------
-def task_valid(ctx, which, n, depth, tower=0):
+ORDERS = [["public", "private"], ["private", "public"], ["public"], ["private"]]
+
+
+def task_valid(ctx, n, depth, tower=0):
     E = env()
     pool = E["pool"]
     strat = fa.compound(pool, depth=depth) if not tower else fa.tower(pool, tower)
-    ctx.search("valid", strat, lambda c, t: check_valid(c, t, which), n)
+    strat = st.tuples(strat, st.sampled_from(ORDERS))
+
+    def fn(c, v):
+        for which in v[1]:
+            check_valid(c, v[0], which)
+    ctx.search("valid", strat, fn, n)
 
 
-def task_malformed(ctx, which, n):
+def task_malformed(ctx, n):
     E = env()
     pool = E["pool"]
     strat = st.tuples(fa.compound(pool, depth=2), st.sampled_from(KINDS),
-                      st.lists(st.integers(0, 10**6), min_size=4, max_size=4))
-    ctx.search("malformed", strat, lambda c, v: check_malformed(c, v, which), n)
+                      st.lists(st.integers(0, 10**6), min_size=4, max_size=4), st.sampled_from(ORDERS))
+
+    def fn(c, v):
+        for which in v[3]:
+            check_malformed(c, v[:3], which)
+    ctx.search("malformed", strat, fn, n)
 
 
 def tasks(tier):
     if tier == "quick":
-        return [("valid-public", task_valid, dict(which="public", n=1500, depth=3)),
-                ("valid-private", task_valid, dict(which="private", n=1500, depth=3)),
-                ("deep-public", task_valid, dict(which="public", n=300, depth=0, tower=12)),
-                ("malformed-public", task_malformed, dict(which="public", n=1800)),
-                ("malformed-private", task_malformed, dict(which="private", n=1200))]
+        return [("valid-a", task_valid, dict(n=1000, depth=3)),
+                ("valid-b", task_valid, dict(n=1000, depth=2)),
+                ("deep", task_valid, dict(n=250, depth=0, tower=12)),
+                ("malformed-a", task_malformed, dict(n=1000)),
+                ("malformed-b", task_malformed, dict(n=1000))]
     out = []
+    for k in range(8):
+        out.append(("valid-%d" % k, task_valid, dict(n=30000, depth=2 + k % 4)))
+    out.append(("deep-0", task_valid, dict(n=5000, depth=0, tower=40)))
+    out.append(("deep-1", task_valid, dict(n=5000, depth=0, tower=25)))
     for k in range(6):
-        out.append(("valid-public-%d" % k, task_valid, dict(which="public", n=40000, depth=3 + k % 3)))
-    for k in range(3):
-        out.append(("valid-private-%d" % k, task_valid, dict(which="private", n=40000, depth=3 + k % 3)))
-    out.append(("deep-public", task_valid, dict(which="public", n=6000, depth=0, tower=40)))
-    out.append(("deep-private", task_valid, dict(which="private", n=6000, depth=0, tower=40)))
-    for k in range(3):
-        out.append(("malformed-public-%d" % k, task_malformed, dict(which="public", n=40000)))
-    for k in range(2):
-        out.append(("malformed-private-%d" % k, task_malformed, dict(which="private", n=40000)))
+        out.append(("malformed-%d" % k, task_malformed, dict(n=30000)))
     return out
 
 
